@@ -7,10 +7,12 @@ def sh(c, **kw): return subprocess.run(c, shell=True, stdout=subprocess.PIPE, st
 if not os.path.isdir(W):
     os.makedirs('/tmp/mt', exist_ok=True); print(sh('git -C /repo worktree add --detach %s HEAD' % W).stdout)
 head = sh('git -C /repo rev-parse HEAD').stdout.strip()
+OUT = sys.argv[1] if len(sys.argv) > 1 else 'out'      # 'out' = round 1, 'out2' = round 2 (harder: state, size, cooperating sites)
+PREFIX = '' if OUT == 'out' else 'r2'
 for i in range(1, 21):
     pid = 'C%02d' % i
-    for mname in sorted(os.listdir('/tmp/sa/c%02d/out' % i)) if os.path.isdir('/tmp/sa/c%02d/out' % i) else []:
-        src = '/tmp/sa/c%02d/out/%s' % (i, mname)
+    for mname in sorted(os.listdir('/tmp/sa/c%02d/%s' % (i, OUT))) if os.path.isdir('/tmp/sa/c%02d/%s' % (i, OUT)) else []:
+        src = '/tmp/sa/c%02d/%s/%s' % (i, OUT, mname)
         if not os.path.exists(src + '/patch.diff'):
             continue
         sh('git -C %s checkout -q --detach %s; git -C %s checkout -- .; git -C %s clean -fdq' % (W, head, W, W))
@@ -22,12 +24,12 @@ for i in range(1, 21):
         ok = ap.returncode == 0 and '93 passed' in tests.stdout and before.returncode == 0 and after.returncode != 0
         print(pid, mname, 'apply', ap.returncode, '|', tests.stdout.strip(), '| demo before rc', before.returncode, 'after rc', after.returncode, '=>', 'KEEP' if ok else 'REJECT')
         if ok:
-            dst = os.path.join(ROOT, 'seeded', '%s-%s' % (pid, mname))
+            dst = os.path.join(ROOT, 'seeded', '%s-%s%s' % (pid, PREFIX, mname))
             os.makedirs(dst, exist_ok=True)
             for f in ('patch.diff', 'demo.py', 'notes.md'):
                 shutil.copy(os.path.join(src, f), os.path.join(dst, f))
             notes = open(os.path.join(src, 'notes.md'), encoding='utf-8').read()
-            json.dump({'property': pid, 'origin': 'independent sub-agent given only the property text and a scratch worktree',
+            json.dump({'property': pid, 'origin': 'independent sub-agent given only the property text and a scratch worktree' + (' (round 2: asked for changes that need state, size thresholds or cooperating sites)' if PREFIX else ''),
                        'needs_to_manifest': notes.strip()[:1500],
                        'verified': {'patch_applies_to': head, 'unit_tests_with_patch': tests.stdout.strip(),
                                     'demo_without_patch_rc': before.returncode, 'demo_with_patch_rc': after.returncode,
